@@ -20,7 +20,7 @@ RULE = ("Generated response recipes (every response class x statuses incl. unkno
         "incl. 400/416) x GET/HEAD, run to completion on both interfaces and then once per fault point: WSGI close() after item n for every n, ASGI client "
         "disconnect after event n and send() failure at event n for every n, producer failure at every step. Non-trivial = a faulted run or a response with "
         "several body events; distinct = (recipe, method, range, interface, fault).")
-RULE += ' Also: any request method; one response object serving two connections at the same time; redirect targets as URL objects, one response object used twice, header text the mapping must refuse (set / append / setdefault / update), the served file removed or truncated after the response object was built; a send-failure point that the faulted run does not reach (fewer keep-alive pings) is counted, not judged. Status codes 600 / 799 / 999 on the response classes.'
+RULE += ' Also: any request method; one response object serving two connections at the same time; redirect targets as URL objects, one response object used twice, header text the mapping must refuse (set / append / setdefault / update), the served file removed or truncated after the response object was built; a send-failure point that the faulted run does not reach (fewer keep-alive pings) is counted, not judged. Status codes 600 / 799 / 999 on the response classes. Non-ASCII download names with control characters; If-None-Match / If-Modified-Since / If-Match on plain file responses.'
 ASSUMPTIONS = [
     "user-supplied values that cannot be represented on the wire (non-Latin-1 header values, hop-by-hop header names passed by the user) are outside the workload",
     "the ASGI zero-copy extension is offered in a third of the file cases and materialised by the emulator",
